@@ -116,6 +116,18 @@ fn run_loss_chain_case(id: &str, r: &mut Rng, out: &mut String) {
             *d += shift;
         }
     }
+    // some chains trade in USD with the commission charged in CAD (a separate commission currency
+    // without an exchange rate of its own in the written CSV)
+    if r.chance(30) {
+        for t in rows.iter_mut() {
+            if let TxActionSpecifics::Sell(sp) = &mut t.action_specifics {
+                sp.tx_currency_and_rate = ledger::cer("USD", Decimal::new(13, 1));
+                sp.amount_per_share = acb::util::decimal::GreaterEqualZeroDecimal::try_from((*sp.amount_per_share / Decimal::new(13, 1)).round_dp(4)).unwrap();
+                sp.commission = acb::util::decimal::GreaterEqualZeroDecimal::try_from(Decimal::new(999, 2)).unwrap();
+                sp.separate_commission_currency = Some(ledger::cer("CAD", Decimal::ONE));
+            }
+        }
+    }
     for (i, t) in rows.iter_mut().enumerate() {
         t.read_index = i as u32;
         t.security = "S0".to_string();
